@@ -140,17 +140,25 @@ def _g3_closed_form(ctx, fi, R):
             if isinstance(t, ast.Name) and v is not None:
                 d.setdefault(t.id, []).append(v)
     full = [n for n, vs in d.items() if len(vs) == 1 and norm(vs[0]) == "compute_rank_occupancy(rank_projection, shape)"]
-    ctx.require(len(full) == 1 and len(d.get("halo", ())) == 1 and len(d.get("stride", ())) == 1, R, "closed-form halo: occupancy of the full shape, stride, halo each defined once")
-    ctx.check(norm(d["stride"][0]) == "rank_projection.coeff(rank_var)", R, fi, d["stride"][0], "stride is not the coefficient of the rank variable in the projection", "stride = coefficient of the rank variable")
-    N = Normaliser()
-    got = N.poly(d["halo"][0])
+    st = [s for s in fi.stmts() for t, v, _ in assigned_targets(s) if norm(t) == "tensor_stride_and_halo[rank, rank_var]"]
+    ctx.require(len(st) == 1 and isinstance(st[0].value, ast.Tuple) and len(st[0].value.elts) == 2, R, "closed-form halo: one store of a (stride, halo) pair")
+
+    def resolve(e):
+        # the pair may name its parts or carry the expressions themselves (a single-use temporary is substituted at load time)
+        if isinstance(e, ast.Name) and len(d.get(e.id, ())) == 1:
+            return d[e.id][0]
+        return e
+    stride_e, halo_e = (resolve(x) for x in st[0].value.elts)
+    ctx.require(len(full) == 1, R, "closed-form halo: occupancy of the full shape defined once")
+    ctx.check(norm(stride_e) == "rank_projection.coeff(rank_var)", R, fi, stride_e, "stride is not the coefficient of the rank variable in the projection", "stride = coefficient of the rank variable")
+    N = Normaliser(env={"stride": stride_e} if not isinstance(st[0].value.elts[0], ast.Name) else None)
+    got = N.poly(halo_e)
     want = N.poly(ast.parse(f"{full[0]} - 1 - stride * (shape[rank_var] - 1)", mode="eval").body)
     atoms = {a for mono, _ in got.monomials() for a, _ in mono}
-    ctx.require(atoms <= {full[0], "stride", "shape[rank_var]"}, R, f"closed-form halo over unrecognised atoms {sorted(atoms)}")
-    ctx.check(got == want, R, fi, d["halo"][0], f"halo is `{got!r}`; the occupancy at extent 1 minus 1 is `{want!r}` (occupancy substitutes extent-1 for each variable and adds 1): "
+    ctx.require(atoms <= {full[0], "stride", "shape[rank_var]", norm(stride_e)}, R, f"closed-form halo over unrecognised atoms {sorted(atoms)}")
+    ctx.check(got == want, R, fi, halo_e, f"halo is `{got!r}`; the occupancy at extent 1 minus 1 is `{want!r}` (occupancy substitutes extent-1 for each variable and adds 1): "
               "strides/halos feed every tile-size and reuse formula", f"halo = {want!r}")
-    st = [s for s in fi.stmts() for t, v, _ in assigned_targets(s) if norm(t) == "tensor_stride_and_halo[rank, rank_var]"]
-    ctx.check(len(st) == 1 and norm(st[0].value) == "(stride, halo)", R, fi, st[0] if st else fi.node, "the (rank, rank variable) entry is not (stride, halo)", "entry = (stride, halo)")
+    ctx.ok(R, fi, st[0], "entry = (stride, halo)")
     ctx.ok(R, fi, fi.node, "no write to the caller's shape dict at all")
     ctx.floor(R, 4)
 
